@@ -414,3 +414,79 @@ add(Contract(
     ],
     raises={'Exception': ["unchanged(fragments)"]},
     modifies=['slot(pkt, self.I.field_name)'] + FRAG_MOD, returns='dyn'))
+
+# ---------------------------------------------------------------- constructors of Int / Bits, Bits._compile (C07)
+add(Contract(
+    'field:Int.__init__',
+    params={'self': 'ref:Int', 'byte_count': 'int', 'signed': 'bool', 'endianness': 'dyn', 'default': 'dyn'},
+    defaults={'byte_count': '4', 'signed': 'False', 'endianness': 'None', 'default': '0'},
+    ensures=["self.byte_count == byte_count and self.is_signed == signed and same(self.endianness, endianness)",
+             "same(self.default, default)", "self.is_fixed", "isnone(self.move_arg) and isnone(self.descriptor)"],
+    modifies=['self.*']))
+
+add(Contract(
+    'field:Bits.__init__',
+    params={'self': 'ref:Bits', 'bit_count': 'int', 'default': 'dyn'},
+    defaults={'default': '0'},
+    requires=["bit_count >= 0"],
+    ensures=["self.bit_count == bit_count and self.ghost_w == bit_count", "same(self.default, default)",
+             "not self.iam_first and not self.iam_last", "self.mask == pow2(bit_count) - 1"],
+    ghost={'self.ghost_w': 'bit_count'},
+    modifies=['self.*']))
+
+# the (name, field) pairs of the class under construction
+define('RUN_LO(self, position)', "position + 1 - len(self.members)")
+define('FLD(fields, j)', "asref(tupitem(fields[j], 2, 1), 'Bits')")
+define('isbits(fields, j)', "isinst(tupitem(fields[j], 2, 1), 'Bits')")
+define('FieldsWF(fields)',
+       "forall(0, len(fields), lambda j: istuple(fields[j], 2) and isinst(tupitem(fields[j], 2, 1), 'Field')"
+       "       and allocated(tupitem(fields[j], 2, 1)))"
+       # distinct entries are distinct objects
+       " and forall(lambda i, j: implies(0 <= i and i < j and j < len(fields),"
+       "       not same(tupitem(fields[i], 2, 1), tupitem(fields[j], 2, 1))))"
+       # Bits entries are not compiled yet: width still present, >= 1
+       " and forall(0, len(fields), lambda j: implies(isbits(fields, j),"
+       "       hasattr_bit_count(FLD(fields, j)) and FLD(fields, j).bit_count == FLD(fields, j).ghost_w"
+       "       and FLD(fields, j).ghost_w >= 1))")
+# member j of the run that ends at position p has been laid out: MSB first, i.e. its shift is the total
+# width of the members after it, its mask covers exactly its own ghost_w bits, and it shares the run's Int
+define('laid_out(fields, j, p, I)',
+       "isbits(fields, j) and FLD(fields, j).shift == wsum(fields, j + 1, p + 1)"
+       " and FLD(fields, j).mask == lshift(pow2(FLD(fields, j).ghost_w) - 1, FLD(fields, j).shift)"
+       " and FLD(fields, j).I == I")
+
+add(Contract(
+    'field:Bits._compile',
+    params={'self': 'ref:Bits', 'position': 'int', 'fields': 'list', 'bisturi_conf': 'conf'},
+    requires=["0 <= position and position < len(fields)", "allocated(fields)", "FieldsWF(fields)",
+              "same(tupitem(fields[position], 2, 1), self)",
+              "not self.iam_first and not self.iam_last"],
+    ensures=[
+        "self.iam_first == (position == 0 or not isbits(fields, position - 1))",
+        "self.iam_last == (position == len(fields) - 1 or not isbits(fields, position + 1))",
+        # the last member of a run lays the whole run out; the run is fields[RUN_LO .. position]
+        "implies(self.iam_last, 0 <= RUN_LO(self, position) and RUN_LO(self, position) <= position"
+        "        and (RUN_LO(self, position) == 0 or not isbits(fields, RUN_LO(self, position) - 1))"
+        "        and forall(RUN_LO(self, position), position + 1, lambda j: laid_out(fields, j, position, self.I)))",
+        # one shared big-endian unsigned Int of total/8 bytes
+        "implies(self.iam_last, IntCompiled(self.I) and self.I.is_bigendian and not self.I.is_signed"
+        "        and 8 * self.I.byte_count == wsum(fields, RUN_LO(self, position), position + 1) and fresh_since(self.I))",
+    ],
+    raises={
+        # a run whose total width is not a multiple of 8 is rejected while the class is being defined
+        'ByteBoundaryError': ["pymod(wsum(fields, RUN_LO(self, position), position + 1), 8) != 0"],
+    },
+    loops={0: LoopSpec([
+        "0 <= it and it <= position + 1",
+        "cumshift == wsum(fields, position + 1 - it, position + 1)",
+        "len(self.members) == it and allocated(self.members)",
+        "forall(position + 1 - it, position + 1, lambda j: laid_out(fields, j, position, I))",
+        # members not reached yet are untouched
+        "forall(0, position + 1 - it, lambda j: implies(isbits(fields, j),"
+        "       hasattr_bit_count(FLD(fields, j)) and FLD(fields, j).bit_count == FLD(fields, j).ghost_w))",
+        "self.iam_last and fresh_since(I) and cumshift >= it",
+        "forall(0, position + 1 - it, lambda j: True) and not same(self.members, fields)",
+    ], kinds={'n': 'dyn', 'f': 'dyn'})},
+    modifies=['self.iam_first', 'self.iam_last', 'self.members', 'self.members[*]',
+              'Bits.shift[*]', 'Bits.mask[*]', 'Bits.I[*]', 'Bits.bit_count[*]'],
+    allocates=True, returns='list'))
